@@ -13,6 +13,7 @@ import (
 	"net"
 	"os"
 	"strings"
+	"sync"
 
 	"github.com/btcsuite/btcd/btcec/v2"
 	"github.com/btcsuite/btcd/btcutil"
@@ -34,6 +35,7 @@ import (
 	"github.com/lightningnetwork/lnd/lnrpc"
 	"github.com/lightningnetwork/lnd/lnwallet"
 	"github.com/lightningnetwork/lnd/lnwire"
+	"github.com/lightningnetwork/lnd/routing/route"
 	"google.golang.org/grpc"
 	"google.golang.org/protobuf/proto"
 )
@@ -74,12 +76,42 @@ type c17Base struct {
 	shims []*lnrpc.FundingShim
 	opens []*lnrpc.OpenChannelRequest
 	peers [][33]byte
+
+	// like lnd's wallet: at most one funding intent per pending channel id,
+	// the first one is kept
+	held       map[[32]byte]*lnrpc.ChanPointShim
+	cancelFail map[[32]byte]bool
 }
 
 func (b *c17Base) FundingStateStep(_ context.Context, req *lnrpc.FundingTransitionMsg,
 	_ ...grpc.CallOption) (*lnrpc.FundingStateStepResp, error) {
 
-	b.shims = append(b.shims, req.GetShimRegister())
+	if b.held == nil {
+		b.held = map[[32]byte]*lnrpc.ChanPointShim{}
+	}
+	if c := req.GetShimCancel(); c != nil {
+		var pid [32]byte
+		copy(pid[:], c.PendingChanId)
+		if b.cancelFail[pid] {
+			return nil, errors.New("rpc error: code = DeadlineExceeded")
+		}
+		if _, ok := b.held[pid]; !ok {
+			return nil, errors.New("no funding intent found for the pending channel ID")
+		}
+		delete(b.held, pid)
+		return &lnrpc.FundingStateStepResp{}, nil
+	}
+	reg := req.GetShimRegister()
+	if reg == nil || reg.GetChanPointShim() == nil {
+		return nil, errors.New("invalid funding shim")
+	}
+	var pid [32]byte
+	copy(pid[:], reg.GetChanPointShim().PendingChanId)
+	if _, dup := b.held[pid]; dup {
+		return nil, fmt.Errorf("%w: already has intent registered: %x", lnwallet.ErrDuplicatePendingChanID, pid[:])
+	}
+	b.held[pid] = reg.GetChanPointShim()
+	b.shims = append(b.shims, reg)
 	return &lnrpc.FundingStateStepResp{}, nil
 }
 
@@ -120,6 +152,36 @@ func (b *c17Base) SubscribeChannelEvents(context.Context, *lnrpc.ChannelEventSub
 	return nil, errors.New("not used")
 }
 
+// c17Lightning records the connection attempts of one PrepChannelFunding call.
+type c17Lightning struct {
+	*test.MockLightning
+	mu    sync.Mutex
+	conns map[route.Vertex]string
+}
+
+func (l *c17Lightning) Connect(_ context.Context, peer route.Vertex, host string, _ bool) error {
+	l.mu.Lock()
+	defer l.mu.Unlock()
+	l.conns[peer] = host
+	return nil
+}
+
+func (l *c17Lightning) Connections() map[route.Vertex]string {
+	l.mu.Lock()
+	defer l.mu.Unlock()
+	res := map[route.Vertex]string{}
+	for k, v := range l.conns {
+		res[k] = v
+	}
+	return res
+}
+
+func (l *c17Lightning) ResetConns() {
+	l.mu.Lock()
+	defer l.mu.Unlock()
+	l.conns = map[route.Vertex]string{}
+}
+
 // c17Signer accepts every signature and returns a fixed valid one.
 type c17Signer struct {
 	*test.MockSigner
@@ -144,7 +206,7 @@ type c17Reg struct {
 
 type c17Party struct {
 	name    string
-	ln      *test.MockLightning
+	ln      *c17Lightning
 	nodeKey *btcec.PublicKey
 	node33  [33]byte
 	wallet  *c17Wallet
@@ -156,6 +218,7 @@ type c17Party struct {
 
 func (p *c17Party) reset() {
 	p.base.shims, p.base.opens, p.base.peers = nil, nil, nil
+	p.base.held, p.base.cancelFail = nil, nil
 	p.regs = nil
 	p.wallet.fail = false
 	p.acc = pool.NewChannelAcceptor(nil)
@@ -168,7 +231,7 @@ func c17NewParty(name string, seed byte, db *clientdb.DB) *c17Party {
 	p.wallet = &c17Wallet{MockWalletKit: test.NewMockWalletKit(), seed: seed}
 	p.base = &c17Base{}
 	p.acc = pool.NewChannelAcceptor(nil)
-	p.ln = test.NewMockLightning()
+	p.ln = &c17Lightning{MockLightning: test.NewMockLightning(), conns: map[route.Vertex]string{}}
 	p.mgr = funding.NewManager(&funding.ManagerConfig{
 		DB:               db,
 		WalletKit:        p.wallet,
@@ -342,6 +405,9 @@ type c17Sidecar struct {
 	RecIdx     uint32 `json:"rec_idx"`
 	SelfRecv   bool   `json:"self_recv"` // provider's own node is the recipient
 	ExtraTix   int    `json:"extra_tickets"`
+	// the bid's amount / min units match in units when they are not the matched units (0 = same)
+	BidAmtUnits uint32 `json:"bid_amt_units,omitempty"`
+	BidMinUnits uint32 `json:"bid_min_units,omitempty"`
 }
 
 type c17PairCase struct {
@@ -364,6 +430,8 @@ type c17PairCase struct {
 	Sidecar     *c17Sidecar `json:"sidecar,omitempty"`
 	WalletFail  string      `json:"wallet_fail,omitempty"` // "asker" | "taker"
 	BadKey      string      `json:"bad_key,omitempty"`     // "ask" | "bid": submitted multisig key is not a curve point
+	AskVersion  uint32      `json:"ask_version,omitempty"` // order version + 1, 0 = VersionChannelType
+	BidVersion  uint32      `json:"bid_version,omitempty"`
 }
 
 type c17Funding struct {
@@ -379,6 +447,8 @@ type c17Funding struct {
 	addr     net.Addr
 	batchID  []byte
 	nViolate int
+
+	connTimeouts int
 }
 
 func c17NewFunding(r *Run) *c17Funding {
@@ -501,6 +571,9 @@ func (f *c17Funding) exec(c *c17PairCase) {
 	askKit.FixedRate = 100
 	askKit.MaxBatchFeeRate = 253
 	askKit.Version = order.VersionChannelType
+	if c.AskVersion != 0 {
+		askKit.Version = order.Version(c.AskVersion - 1)
+	}
 	copy(askKit.AcctKey[:], f.acctKey.SerializeCompressed())
 	ask := &order.Ask{Kit: *askKit}
 
@@ -515,6 +588,17 @@ func (f *c17Funding) exec(c *c17PairCase) {
 	bidKit.FixedRate = 100
 	bidKit.MaxBatchFeeRate = 253
 	bidKit.Version = order.VersionChannelType
+	if c.BidVersion != 0 {
+		bidKit.Version = order.Version(c.BidVersion - 1)
+	}
+	if sc := c.Sidecar; sc != nil && sc.BidAmtUnits != 0 {
+		bidKit.Amt = btcutil.Amount(int64(sc.BidAmtUnits) * unit)
+		bidKit.Units = order.SupplyUnit(sc.BidAmtUnits)
+		bidKit.UnitsUnfulfilled = bidKit.Units
+	}
+	if sc := c.Sidecar; sc != nil && sc.BidMinUnits != 0 {
+		bidKit.MinUnitsMatch = order.SupplyUnit(sc.BidMinUnits)
+	}
 	copy(bidKit.AcctKey[:], f.acctKey.SerializeCompressed())
 	bid := &order.Bid{
 		Kit: *bidKit, SelfChanBalance: btcutil.Amount(c.SelfBal),
@@ -570,7 +654,7 @@ func (f *c17Funding) exec(c *c17PairCase) {
 			int64(bid.Amt), uint64(bid.MinUnitsMatch)), "gate="+c17b(gateErr == nil))
 		if gateErr != nil {
 			r.Count("sidecar/gate-rejected")
-			if consistent && sc.OfferCap == int64(bid.Amt) {
+			if consistent && sc.OfferCap == int64(bid.Amt) && sc.BidMinUnits == 0 && sc.BidAmtUnits == 0 {
 				f.violate("a sidecar bid identical to its ticket's offer is refused: "+gateErr.Error(),
 					"C17/sidecar-gate", c)
 			}
@@ -988,6 +1072,18 @@ func (f *c17Funding) gen() *c17PairCase {
 	if rng.Intn(80) == 0 {
 		c.BadKey = []string{"ask", "bid"}[rng.Intn(2)]
 	}
+	// order versions: the version is a caller supplied RPC field; older ones must not change the funding
+	oldVersions := []uint32{1 + uint32(order.VersionDefault), 1 + uint32(order.VersionNodeTierMinMatch),
+		1 + uint32(order.VersionLeaseDurationBuckets), 1 + uint32(order.VersionSelfChanBalance), 1 + uint32(order.VersionSidecarChannel)}
+	if rng.Intn(5) == 0 {
+		c.AskVersion = oldVersions[rng.Intn(len(oldVersions))]
+	}
+	if rng.Intn(5) == 0 {
+		c.BidVersion = oldVersions[rng.Intn(len(oldVersions))]
+	}
+	if c.AskVersion != 0 || c.BidVersion != 0 {
+		f.r.Count("pair/old-order-version")
+	}
 	if rng.Intn(10) < 3 {
 		sc := &c17Sidecar{OfferLease: c.Lease, OfferPush: c.SelfBal, OfferUnann: c.Unann, OfferZC: c.ZC,
 			OfferCap: capSat, RecIdx: idx(), SelfRecv: rng.Intn(10) == 0, ExtraTix: rng.Intn(3)}
@@ -1014,6 +1110,17 @@ func (f *c17Funding) gen() *c17PairCase {
 			sc.OfferCap = capSat + int64(order.BaseSupplyUnit)
 		case 5:
 			sc.OfferLease = 0
+		}
+		// the bid's own amount / min units against the offered capacity: only one of them off
+		switch rng.Intn(dev * 8) {
+		case 0:
+			sc.BidMinUnits = c.Units + 1 + uint32(rng.Intn(3))
+		case 1:
+			if c.Units > 1 {
+				sc.BidMinUnits = c.Units - 1
+			}
+		case 2:
+			sc.BidAmtUnits = c.Units + 1 + uint32(rng.Intn(3))
 		}
 		c.Sidecar = sc
 	}
